@@ -165,6 +165,74 @@ V("C05", "C05.R5", "c05-copy-array-cxx-only", "shroud/whelpers.py",
         source=wformat(''',
   '''        # via an interface for each cxx_type.
         cxx_source=wformat(''', "fire", "copy_array")
+V("C03", "C03.R13", "c03-shadow-inout-without-object-created", "shroud/wrapp.py",
+  """            "\\t {py_var} ? {py_var}->{PY_type_obj} : {nullptr};"
+        ],
+        object_created=True,
+    ),
+    dict(
+        name="py_shadow_*_out",""",
+  """            "\\t {py_var} ? {py_var}->{PY_type_obj} : {nullptr};"
+        ],
+    ),
+    dict(
+        name="py_shadow_*_out",""", "fire", "py_shadow_*_inout]:object_created")
+V("C03", "C03.R13", "c03-shadow-ref-inout-removed", "shroud/wrapp.py",
+  'name="py_shadow_&_inout",', 'name="py_shadow_&_inoutx",', "fire", "py_shadow_&_inout]:lookup")
+V("C03", "C03.R13", "c03-borrowed-object-returned-without-incref", "shroud/wrapp.py",
+  'post_call=[wformat("Py_INCREF({py_var});", fmt_arg)]))', 'post_call=[]))', "fire", "borrowed-return")
+V("C03", "C03.R13", "c03-incref-in-the-entry-instead", "shroud/wrapp.py",
+  'post_call=[wformat("Py_INCREF({py_var});", fmt_arg)]))', 'post_call=[]))', "fire", "py_struct_*_inout_class]:borrowed-return")
+V("C05", "C05.R2", "c05-py-helper-hard-coded", "shroud/wrapp.py",
+  '''        name="py_vector_result_list",
+        c_helper="to_PyList_vector_{cxx_T}",''',
+  '''        name="py_vector_result_list",''', "fire", "py_vector_result_list")
+V("C05", "C05.R2", "c05-py-helper-index-beyond-list", "shroud/wrapp.py",
+  '            "{py_var} = {hnamefunc1}\\t({cxx_var},\\t {size_var});",',
+  '            "{py_var} = {hnamefunc2}\\t({cxx_var},\\t {size_var});",', "fire", "hnamefunc2")
+V("C03", "C03.R14", "c03-charptr-converter-returns-minus-one", "shroud/whelpers.py",
+  """must be iterable",\\t value->name);
+return 0;
+-}}
+Py_ssize_t size = PySequence_Fast_GET_SIZE(seq);
+char **in""", """must be iterable",\\t value->name);
+return -1;
+-}}
+Py_ssize_t size = PySequence_Fast_GET_SIZE(seq);
+char **in""", "fire", "get_from_object_charptr")
+V("C05", "C05.R18", "c05-lua-header-includes-inside-extern-c", "shroud/wrapl.py",
+  """        header_impl.write_headers(output)
+
+        util.extern_C(output, "begin")
+        output.append('#include "lua.h"')""",
+  """        util.extern_C(output, "begin")
+        header_impl.write_headers(output)
+        output.append('#include "lua.h"')""", "fire", "Wrapl.write_header:write_headers")
+V("C03", "C03.R3", "c03-ssize-t-clean-dropped", "shroud/wrapp.py",
+  '        output.append("#define PY_SSIZE_T_CLEAN")\n', '', "fire", "PY_SSIZE_T_CLEAN")
+V("C03", "C03.R3", "c03-ssize-t-clean-after-include", "shroud/wrapp.py",
+  '        output.append("#define PY_SSIZE_T_CLEAN")\n        output.append("#include <Python.h>")',
+  '        output.append("#include <Python.h>")\n        output.append("#define PY_SSIZE_T_CLEAN")', "fire", "PY_SSIZE_T_CLEAN")
+V("C03", "C03.R3", "c03-ssize-t-clean-same-string", "shroud/wrapp.py",
+  '        output.append("#define PY_SSIZE_T_CLEAN")\n        output.append("#include <Python.h>")',
+  '        output.append("#define PY_SSIZE_T_CLEAN\\n#include <Python.h>")', "silent", "")
+V("C05", "C05.R16", "c05-ctor-default-returns-nullptr", "shroud/wrapp.py",
+  '                "return {PY_error_return};\\n"\n#                "goto fail;\\n"',
+  '                "return {nullptr};\\n"\n#                "goto fail;\\n"', "fire", "wrap_function:return {nullptr}")
+V("C05", "C05.R16", "c05-dispatch-returns-null", "shroud/wrapp.py",
+  '            append_format(body, "return {PY_error_return};", fmt)\n            body.append(-1)',
+  '            append_format(body, "return {nullptr};", fmt)\n            body.append(-1)', "fire", "multi_dispatch:return {nullptr}")
+V("C05", "C05.R16", "c05-literal-return-under-kind-test", "shroud/wrapp.py",
+  '                return_code = "return rv;"\n                return_arg = "rv"',
+  '                return_code = "return -1;"\n                return_arg = "rv"', "silent", "")
+V("C05", "C05.R17", "c05-enum-keeps-flat-name-of-int", "shroud/typemap.py",
+  '        ntypemap.flat_name = None\n        ntypemap.compute_flat_name()',
+  '        ntypemap.compute_flat_name()', "fire", "create_enum_typemap:ntypemap.flat_name")
+V("C05", "C05.R17", "c05-enum-flat-name-assigned-directly", "shroud/typemap.py",
+  '        ntypemap.flat_name = None\n        ntypemap.compute_flat_name()',
+  '        ntypemap.flat_name = flatten_name(ntypemap.cxx_type)', "silent", "")
+V("C05", "C05.R17", "c05-two-types-one-flat-name", "shroud/typemap.py",
+  '            flat_name="double_complex",', '            flat_name="float_complex",', "fire", "flat_name")
 V("C05", "C05.R6", "c05-option-renamed", "shroud/ast.py",
   'C_var_trim_template="L{c_var}",', 'C_var_ltrim_template="L{c_var}",', "fire", "C_var_trim_template")
 V("C05", "C05.R7", "c05-linelen-wrong-option", "shroud/wrapf.py",
@@ -753,12 +821,15 @@ V("C11", "C11.R1", "c11-fvalue-not-reset", "shroud/ast.py",
   '''                        cvalue = int(literal)
                     value_is_int = True''', "fire", "")
 V("C11", "C11.R1", "c11-octal-dropped", "shroud/ast.py",
-  '''                    if len(literal) > 1 and literal[0] == "0":
+  '''                    if len(digits) > 1 and digits[0] == "0":
                         # C++ reads a leading 0 as an octal literal.
                         cvalue = int(literal, 8)
                     else:
                         cvalue = int(literal)''',
   '''                    cvalue = int(literal)''', "fire", "octal")
+V("C11", "C11.R1", "c11-octal-sign-not-peeled", "shroud/ast.py",
+  '''                    if len(digits) > 1 and digits[0] == "0":''',
+  '''                    if len(literal) > 1 and literal[0] == "0":''', "fire", "octal")
 V("C11", "C11.R5", "c11-unary-right-unparenthesised", "shroud/todict.py",
   '''            right = "(" + right + ")"
         return self.visit(node.left) + node.op + right''',
